@@ -50,10 +50,12 @@ var (
 )
 
 var nameAlphabet = []string{"alice", "Bob", "user-1", "a b", "per%cent", "sl/ash", "ünï", "system:admin", "x:y", "UP", "q?x=1", "a,b", "system:anonymous"}
+
 // "Ops", "Team" next to "Ops Team", "dev", "ops" next to "dev ops": identities that differ only in where the element
 // boundaries fall (a rendering that joins elements with blanks cannot tell them apart); the gateway process lives across
 // cases, so anything it memoises per identity is hit by such twins
 var groupAlphabet = []string{"dev", "system:masters", "Ops Team", "Ops", "Team", "ops", "dev ops", "g%2F", "système", "system:authenticated", "system:unauthenticated", "a/b", "[dev", "ops]"}
+
 // keys with a literal '%' followed by two hex digits matter: the upstream percent-decodes the header name, so the
 // gateway has to escape the '%' itself
 var extraKeys = []string{"scopes", "Scopes", "acme.io/team", "k%y", "k y", "UPPER", "x", "acme.io%2fteam", "50%25", "%41b", "x/y%2fz", "a%2Fb"}
@@ -235,8 +237,13 @@ func lowerKeys(m map[string][]string) map[string][]string {
 var implied = map[string]bool{"system:authenticated": true, "system:unauthenticated": true, "system:serviceaccounts": true}
 
 func TestPropIdentityPropagation(t *testing.T) {
+	stats.Check(t, stats.N(8000, 60000), propIdentityPropagation())
+}
+
+// propIdentityPropagation: the property of TestPropIdentityPropagation (shared with the native fuzz target FuzzIdentityPropagation).
+func propIdentityPropagation() func(t *rapid.T) {
 	sub := stats.NewSub("identity-propagation", "rapid: authenticated identity (one time in ten from a family of twins that differ only in where the boundaries between groups / extra values fall - the gateway process lives across cases; otherwise name, 0-4 groups, 0-3 extra keys x 1-2 values with %, /, blanks, UTF-8, upper case, literal %XX sequences), client header set (Authorization valid / second value / other scheme / unknown token / none; Impersonate-User 0-2 values incl. empty first value and service-account form; Impersonate-Group 0-3; Impersonate-Extra-<key> escaped or raw; other Impersonate-* names) written in lower / upper / mixed case on a real HTTP/1.1 connection, one request in five as an upgrade (exec style) request, one in eight right after the endpoint's transport was rebuilt (what the gateway does when health probes hang), and a deny set for the authorizer; oracle: reference impersonation semantics decide 401 / >=400 malformed / 403 / forwarded, and for forwarded requests the identity the stub upstream decodes == the effective identity, Authorization == exactly the gateway credential, no Impersonate-* header other than those generated from the effective identity; non-trivial = the client sent an identity-bearing header other than one valid Authorization, or the identity has extras / non-alphanumeric bytes; distinct by FNV-64 of (identity, headers, deny set)")
-	stats.Check(t, stats.N(8000, 60000), func(t *rapid.T) {
+	return func(t *rapid.T) {
 		id := genIdentity(t)
 		cr := genClientHeaders(t)
 		denyMode := rapid.IntRange(0, 3).Draw(t, "denyMode")
@@ -432,7 +439,13 @@ func TestPropIdentityPropagation(t *testing.T) {
 		if sub.WantSample() && (imp.requested || imp.foreign) {
 			sub.Sample(map[string]interface{}{"identity": fmt.Sprintf("%+v", id), "client_headers": cr.headers, "upstream_identity_headers": map[string]interface{}{"user": obsUser, "groups": obsGroups, "extra": obsExtra}, "status": resp.Status})
 		}
-	})
+
+	}
+}
+
+// FuzzIdentityPropagation: the same property driven by Go's coverage-guided fuzzer (thorough tier): the fuzzer's bytes are rapid's bit stream, so every input comes from the same generators and is judged by the same oracle.
+func FuzzIdentityPropagation(f *testing.F) {
+	f.Fuzz(rapid.MakeFuzz(propIdentityPropagation()))
 }
 
 // TestReplayForeignImpersonateHeaders: witness from the design phase.
